@@ -29,6 +29,10 @@ type Taint struct {
 	// field-based heap abstraction
 	Fields     map[*types.Var]bool
 	fieldIndex map[*types.Var][]ssa.Value
+	// NoKeyFlow: an index/lookup result derives from the container only, not from the key.
+	NoKeyFlow bool
+	// Sanitizers: calls of these functions do not propagate taint to their result.
+	Sanitizers map[*ssa.Function]bool
 }
 
 // IndexFields records every FieldAddr/Field instruction of the given
@@ -156,6 +160,22 @@ func (t *Taint) visit(v ssa.Value, r ssa.Instruction) {
 		t.Add(x)
 	case ssa.Value:
 		// generic value-producing instruction using v
+		if t.NoKeyFlow {
+			switch y := x.(type) {
+			case *ssa.Lookup:
+				if y.X != v {
+					return
+				}
+			case *ssa.Index:
+				if y.X != v {
+					return
+				}
+			case *ssa.IndexAddr:
+				if y.X != v {
+					return
+				}
+			}
+		}
 		switch y := x.(type) {
 		case *ssa.Phi, *ssa.BinOp, *ssa.UnOp, *ssa.Field, *ssa.FieldAddr, *ssa.Index, *ssa.IndexAddr,
 			*ssa.Lookup, *ssa.Extract, *ssa.Next, *ssa.Range, *ssa.TypeAssert, *ssa.Convert,
@@ -186,6 +206,9 @@ func (t *Taint) visitCallCommon(v ssa.Value, cc *ssa.CallCommon, call *ssa.Call)
 		return
 	}
 	callee := cc.StaticCallee()
+	if callee != nil && t.Sanitizers[callee] {
+		return
+	}
 	if callee != nil && callee.Blocks != nil && t.Follow != nil && t.Follow(callee) {
 		// map arguments to parameters
 		if call != nil {
